@@ -425,6 +425,23 @@ class Interp:
                 return type(v).__name__
             if fam(a) != fam(b):
                 return False
+            if isinstance(a, Obj) and isinstance(b, Obj):
+                if a is b:
+                    return True
+                if a.cls is b.cls and a.cls.is_dataclass and a.cls.find_method("__eq__") is None and \
+                        not any("eq=False" in d.replace(" ", "") for d in a.cls.decorators):
+                    # the generated __eq__: field by field, in declaration order
+                    res2: Optional[bool] = True
+                    for k in sorted(set(a.fields) | set(b.fields)):
+                        if k not in a.fields or k not in b.fields:
+                            return None
+                        r = self.try_equals(a.fields[k], b.fields[k])
+                        if r is False:
+                            return False
+                        if r is None:
+                            res2 = None
+                    return res2
+                return False
             if isinstance(a, Obj) or isinstance(a, ClassV):
                 return a is b if isinstance(a, Obj) else a.cls is b.cls  # type: ignore[union-attr]
             return None
@@ -755,7 +772,15 @@ class Interp:
         """class-level attributes are evaluated once per run: one object shared by all instances"""
         key = ("$classattr", c.name + "." + name)
         if key not in self.run.const_cache:
-            self.run.const_cache[key] = self.eval(expr, Frame(c.module, None, {}))
+            # the class body is a scope: an initialiser may name the attributes defined before it
+            scope: Dict[str, Value] = {}
+            wanted = {n.id for n in ast.walk(expr) if isinstance(n, ast.Name)}
+            for other, oexpr in c.attrs.items():
+                if other == name:
+                    break
+                if other in wanted:
+                    scope[other] = self.class_attr(c, other, oexpr)
+            self.run.const_cache[key] = self.eval(expr, Frame(c.module, None, scope))
         return self.run.const_cache[key]
 
     def set_attr(self, target: Value, name: str, value: Value, node: Optional[ast.AST], fr: Optional[Frame]) -> None:
